@@ -7,10 +7,11 @@ import Imeta.Driver.Tiff
 import Imeta.Driver.ImageType
 import Imeta.Driver.Enums
 import Imeta.Driver.Codec
+import Imeta.Driver.Hash
 open Imeta
 
 def handlers : List (List String → Option String) :=
-  [Tiff.handle, ImageType.handle, EnumsDrv.handle, CodecDrv.handle]
+  [Tiff.handle, ImageType.handle, EnumsDrv.handle, CodecDrv.handle, HashDrv.handle]
 
 def dispatch (line : String) : String :=
   let toks := (line.trimAscii.toString.splitOn " ").filter (· ≠ "")
